@@ -70,6 +70,28 @@ def _on_alarm(signum, frame):
     raise _Alarm()
 
 
+_preloaded = False
+
+
+def _preload():
+    """Import everything with lazy / registering imports (networkx dispatch registry, amaranth back ends)
+    before a watchdog can interrupt it half-way and leave a corrupted module behind."""
+    global _preloaded
+    if _preloaded:
+        return
+    import networkx  # noqa: F401
+    import networkx.algorithms.dag  # noqa: F401
+    import amaranth.sim  # noqa: F401
+    import amaranth.sim.pysim  # noqa: F401
+    import transactron  # noqa: F401
+    import transactron.lib  # noqa: F401
+    import transactron.testing  # noqa: F401
+
+    networkx.lexicographical_topological_sort(networkx.DiGraph({1: {2}}))
+    list(networkx.lexicographical_topological_sort(networkx.DiGraph({1: {2}})))
+    _preloaded = True
+
+
 # --------------------------------------------------------------------------------------------
 # seams
 
@@ -209,8 +231,14 @@ def run_scenario(prop, cfg: dict, salt: int, rng: random.Random | None, recorded
     hasher = hashlib.blake2b(digest_size=16)
     hasher.update(repr(("cfg", _canon(cfg), salt)).encode())
     scen = None
+    # The per-run budget is CPU time of this process (ITIMER_VIRTUAL): a spinning combinational loop burns
+    # CPU and is stopped, while a loaded machine cannot make a healthy run look hung.  A wall-clock timer
+    # twenty times as long is the backstop for a run that blocks without using CPU.
+    _preload()
     old_handler = signal.signal(signal.SIGALRM, _on_alarm)
-    signal.setitimer(signal.ITIMER_REAL, wall_budget)
+    old_vhandler = signal.signal(signal.SIGVTALRM, _on_alarm)
+    signal.setitimer(signal.ITIMER_VIRTUAL, wall_budget)
+    signal.setitimer(signal.ITIMER_REAL, wall_budget * 20)
     try:
         install_seams(salt)
         scen = prop.make(cfg)
@@ -227,7 +255,7 @@ def run_scenario(prop, cfg: dict, salt: int, rng: random.Random | None, recorded
         res["violation"] = {"kind": "premise", "cycle": res["cycles"], "detail": str(e)}
     except _Alarm:
         res["status"] = "inconclusive"
-        res["violation"] = {"kind": "watchdog", "cycle": res["cycles"], "detail": f"wall budget {wall_budget}s exceeded"}
+        res["violation"] = {"kind": "watchdog", "cycle": res["cycles"], "detail": f"run budget of {wall_budget}s CPU (or {wall_budget * 20}s wall) exceeded"}
     except Inconclusive as e:
         res["status"] = "inconclusive"
         res["violation"] = {"kind": "inconclusive", "cycle": res["cycles"], "detail": str(e)}
@@ -240,8 +268,10 @@ def run_scenario(prop, cfg: dict, salt: int, rng: random.Random | None, recorded
             "traceback": traceback.format_exc(),
         }
     finally:
+        signal.setitimer(signal.ITIMER_VIRTUAL, 0)
         signal.setitimer(signal.ITIMER_REAL, 0)
         signal.signal(signal.SIGALRM, old_handler)
+        signal.signal(signal.SIGVTALRM, old_vhandler)
         try:
             install_seams(0)  # leave no half-open body / dependency context behind
         except Exception:
